@@ -33,13 +33,14 @@ def run_mutant(m, tier, shards, seed, keep_log):
             if rc != 0:
                 return dict(m, status="patch-failed", wall=0)
         else:
-            path = os.path.join(root, m["file"])
-            src = open(path).read()
-            count = src.count(m["old"])
-            if count != m.get("count", 1):
-                return dict(m, status=f"pattern-found-{count}-times", wall=0)
-            src = src.replace(m["old"], m["new"])
-            open(path, "w").write(src)
+            for e in m.get("edits", [m]):
+                path = os.path.join(root, e["file"])
+                src = open(path).read()
+                count = src.count(e["old"])
+                if count != e.get("count", 1):
+                    return dict(m, status=f"pattern-found-{count}-times", wall=0)
+                src = src.replace(e["old"], e["new"])
+                open(path, "w").write(src)
         env = dict(os.environ, VF_REPO=root, VERIF_SEED=str(seed), NUMBA_CACHE_DIR=os.path.join(root, ".numba"))
         if shards:
             env["VF_SHARDS"] = str(shards)
